@@ -164,15 +164,17 @@ def _b_events(args):
             psf = rng.random((kH, kW)) + 0.01
             if t % 3 == 1:
                 psf /= psf.sum()
-            Xq = rng.standard_normal((H, W, 4))
+            if t % 2 == 0:
+                psf = psf * 2.0 ** int(rng.integers(-12, 13))            # un-normalised kernels of any magnitude
+            Xq = rng.standard_normal((H, W, 4)) * 10.0 ** int(rng.integers(-9, 10))
             B = Q.apply_blur_fft(Xq.copy(), psf.copy())
             ref = np.stack([oconv(Xq[..., c], psf) for c in range(4)], axis=-1)
             ev.append({"tid": tid, "op": "units", "clause": "BlurIsCentredCircularConvolution",
                        "units": units(float(np.max(np.abs(B - ref))), float(np.max(np.abs(Xq)) * psf.sum()), H * W)})
-            lam = float(rng.choice(LAMS + [1e-3, 5.0]))
+            lam = float(rng.choice(LAMS + [1e-3, 5.0])) * float(np.sum(psf)) ** 2          # lambda on the scale of |H|^2
             A = omatrix(psf, H, W)
             N = H * W
-            noisy = B + 0.01 * rng.standard_normal(B.shape)
+            noisy = B + 0.01 * float(np.max(np.abs(B)) + 1e-300) * rng.standard_normal(B.shape)
             Xr = Q.qslst_restore_fft(noisy.copy(), psf.copy(), lam)
             T = A.T @ A + lam * np.eye(N)
             worst = 0
@@ -181,7 +183,7 @@ def _b_events(args):
                 worst = max(worst, units(float(np.max(np.abs(r))), float(np.max(np.abs(T)) * np.max(np.abs(Xr)) + np.max(np.abs(noisy))), N))
             ev.append({"tid": tid, "op": "units", "clause": "NormalEquations", "units": worst})
             # linearity in B
-            B2 = rng.standard_normal(B.shape)
+            B2 = rng.standard_normal(B.shape) * float(np.max(np.abs(B)) + 1e-300)
             lhs = Q.qslst_restore_fft(noisy + 2.0 * B2, psf.copy(), lam)
             rhs = Xr + 2.0 * Q.qslst_restore_fft(B2.copy(), psf.copy(), lam)
             ev.append({"tid": tid, "op": "units", "clause": "LinearInB",
